@@ -430,6 +430,7 @@ type Link struct {
 	Svc        *Service
 	OnRequest  func(ex *Exchange) *Action // called before the handler
 	OnResponse func(ex *Exchange) *Action // called after the handler
+	MaxContent int64                      // Transport.MaxContentLength (0: library default)
 	mu         sync.Mutex
 	Log        []*Exchange
 }
@@ -439,7 +440,7 @@ func NewLink(s *Service) *Link { return &Link{Svc: s} }
 
 // Transport returns a fresh fdo HTTP transport (own token jar) over this link.
 func (l *Link) Transport() *fdohttp.Transport {
-	return &fdohttp.Transport{BaseURL: "http://" + l.Svc.Name + ".test", Client: &http.Client{Transport: l}}
+	return &fdohttp.Transport{BaseURL: "http://" + l.Svc.Name + ".test", Client: &http.Client{Transport: l}, MaxContentLength: l.MaxContent}
 }
 
 // Exchanges returns a copy of the log.
